@@ -313,7 +313,7 @@ def gen_op(rng: random.Random, case: F.Case, tracks, kinds: list[str], always_re
                 return op
         if case.cfg == "seg":
             free = free_pixels(case, tracks, time) if op["time"] is not None else []
-            if free and rng.random() < 0.93:
+            if free and rng.random() < 0.88:
                 op["pixels"] = rng.sample(free, rng.randint(1, min(3, len(free))))
                 if rng.random() < 0.3:
                     # attributes "copied from another node": values for managed features that the
@@ -367,7 +367,10 @@ def gen_op(rng: random.Random, case: F.Case, tracks, kinds: list[str], always_re
         if not offs:
             offs = [rng.randrange(frame)]
         r = rng.random()
-        if r < 0.2:
+        bare = [n for n in here if not (seg[t * frame:(t + 1) * frame] == n).any()]
+        if bare and rng.random() < 0.5:
+            value = rng.choice(bare)   # give a bare-point node its first pixels
+        elif r < 0.2:
             value = 0
         elif r < 0.55 and here:
             value = rng.choice(here)
